@@ -986,9 +986,11 @@ theorem choiceRegister_W {cfg : Cfg} (hg : CfgGood cfg) (f : Nat) (cls : List Cl
       LT (choiceRegister cfg w f cls).fibers (choiceRegister cfg w f cls).runq f = 0 ∧
       ¬ liveTimer (choiceRegister cfg w f cls).fibers (choiceRegister cfg w f cls).timers f ∧
       (∀ cl ∈ cls, liveIn (choiceRegister cfg w f cls).fibers (choiceRegister cfg w f cls).ent f cl.chan) ∧
-      (∀ c, liveIn w.fibers w.ent f c → liveIn (choiceRegister cfg w f cls).fibers (choiceRegister cfg w f cls).ent f c) := by
+      (∀ c, liveIn w.fibers w.ent f c → liveIn (choiceRegister cfg w f cls).fibers (choiceRegister cfg w f cls).ent f c) ∧
+      (∀ c, c ∉ cls.map Clause.chan →
+        liveIn (choiceRegister cfg w f cls).fibers (choiceRegister cfg w f cls).ent f c → liveIn w.fibers w.ent f c) := by
   induction cls with
-  | nil => intro w hm hcur hlt hnt _ _; exact ⟨hm, hcur, hlt, hnt, fun cl h => by simp at h, fun c h => h⟩
+  | nil => intro w hm hcur hlt hnt _ _; exact ⟨hm, hcur, hlt, hnt, fun cl h => by simp at h, fun c h => h, fun c _ h => h⟩
   | cons cl rest ih =>
     intro w hm hcur hlt hnt hcond hnd
     have hnd2 := List.nodup_cons.mp (show (cl.chan :: rest.map Clause.chan).Nodup from hnd)
@@ -1032,8 +1034,8 @@ theorem choiceRegister_W {cfg : Cfg} (hg : CfgGood cfg) (f : Nat) (cls : List Cl
       obtain ⟨a, b⟩ := hcond cl' (List.mem_cons_of_mem _ hcl')
       have hne := hnotin cl' hcl'
       exact ⟨Cond_congr cl' h7 (h8 _ hne) a, fun hl => b ((h5 _ hne).mp hl)⟩
-    obtain ⟨i1, i2, i3, i4, i5, i6⟩ := ih w1 h1 h2 h3 h4 hcond1 hnd'
-    refine ⟨i1, i2, i3, i4, ?_, ?_⟩
+    obtain ⟨i1, i2, i3, i4, i5, i6, i7⟩ := ih w1 h1 h2 h3 h4 hcond1 hnd'
+    refine ⟨i1, i2, i3, i4, ?_, ?_, ?_⟩
     · intro cl' hcl'
       rcases List.mem_cons.mp hcl' with e | e
       · subst e; exact i6 _ h6
@@ -1042,6 +1044,10 @@ theorem choiceRegister_W {cfg : Cfg} (hg : CfgGood cfg) (f : Nat) (cls : List Cl
       by_cases e : c = cl.chan
       · subst e; exact absurd hl hn0
       · exact i6 c ((h5 c e).mpr hl)
+    · intro c hc hl
+      have hc1 : c ≠ cl.chan := fun e => hc (by rw [e]; simp)
+      have hc2 : c ∉ rest.map Clause.chan := fun e => hc (by simp only [List.map_cons, List.mem_cons]; exact Or.inr e)
+      exact (h5 c hc1).mp (i7 c hc2 hl)
 
 /-! ### await, finish, the loop -/
 
@@ -1600,7 +1606,7 @@ theorem step_W {cfg : Cfg} (hg : CfgGood cfg) (w : World) (a : Action) (hns : a.
           exact ⟨h1, fun f' hf' => by rw [h2] at hf'; injection hf' with hf'; subst hf'; exact h3⟩
         | none =>
           have hcond := choiceImmediate_none hg w f cls hci
-          obtain ⟨h1, h2, _, _, h5, _⟩ := choiceRegister_W hg f cls w hm hcur hq.1 hq.2.1
+          obtain ⟨h1, h2, _, _, h5, _, _⟩ := choiceRegister_W hg f cls w hm hcur hq.1 hq.2.1
             (fun cl hcl => ⟨hcond cl hcl, hnc cl.chan⟩) hnd
           apply awaitFiber_W h1 h2
           right; right
@@ -1628,5 +1634,124 @@ theorem start_W (limits : Nat → Nat) : WInv (World.start limits) := by
   obtain ⟨ht, hc, hk, _⟩ := scheduleGeneral_props (World.init limits) 0 .nil .ok
   refine ⟨?_, fun f hf => by rw [hk] at hf; simp [World.init] at hf⟩
   unfold WM; rw [ht, ent_of_chans hc]; exact M_schedule 0 .nil .ok h0
+
+/-! ### at the moment a fiber suspends, it is registered exactly where its operation says -/
+
+theorem await_view (w : World) (f : Nat) (c : Nat) :
+    (liveIn (awaitFiber w f).fibers (awaitFiber w f).ent f c ↔ liveIn w.fibers w.ent f c) ∧
+    LT (awaitFiber w f).fibers (awaitFiber w f).runq f = LT w.fibers w.runq f := by
+  have hs : ((awaitFiber w f).fibers f).sched = (w.fibers f).sched := by simp [awaitFiber, setFiber]
+  exact ⟨liveIn_congr w.ent f c hs, LT_congr w.runq f hs⟩
+
+/-- `(ev/give c x)` that suspends: no live task, registered on `c` and nowhere else -/
+theorem give_suspends_exactly {cfg : Cfg} (hg : CfgGood cfg) {w : World} {f c x : Nat} (hi : WInv w)
+    (hcur : w.current = some f) (w' : World) (h : step cfg w (.give c x) = (w', .await)) :
+    LT w'.fibers w'.runq f = 0 ∧ ∀ c', liveIn w'.fibers w'.ent f c' ↔ c' = c := by
+  obtain ⟨hm, hqq⟩ := hi
+  have hq := hqq f hcur
+  have hnc : ∀ c, ¬ liveIn w.fibers w.ent f c := fun c hh => hq.2.2 ⟨c, hh⟩
+  unfold step at h
+  rw [hcur] at h
+  simp only [] at h
+  cases hp : chanPush cfg w f c x 0 with
+  | closedErr => rw [hp] at h; simp at h
+  | ok w1 b =>
+    rw [hp] at h
+    obtain ⟨_, _, h3, _, h5, h6, _⟩ := chanPush_W hg.strict hp hm hcur hq.1 hq.2.1 (hnc c) (by decide)
+    cases b with
+    | false => simp at h
+    | true =>
+      simp at h
+      rw [← h]
+      refine ⟨by rw [(await_view w1 f c).2]; exact h3, ?_⟩
+      intro c'
+      rw [(await_view w1 f c').1]
+      by_cases e : c' = c
+      · subst e; simp [h6]
+      · simp [e]; intro hl; exact hnc c' ((h5 c' e).mp hl)
+
+/-- `(ev/take c)` that suspends: either the item was there and the fiber only yields (one live task, no
+    registration), or it is registered on `c` and nowhere else -/
+theorem take_suspends_exactly {cfg : Cfg} (hg : CfgGood cfg) {w : World} {f c : Nat} (hi : WInv w)
+    (hcur : w.current = some f) (w' : World) (h : step cfg w (.take c) = (w', .await)) :
+    (LT w'.fibers w'.runq f = 1 ∧ ∀ c', ¬ liveIn w'.fibers w'.ent f c') ∨
+    (LT w'.fibers w'.runq f = 0 ∧ ∀ c', liveIn w'.fibers w'.ent f c' ↔ c' = c) := by
+  have hW := step_W hg w (.take c) trivial hi
+  rw [h] at hW
+  obtain ⟨hm, hqq⟩ := hi
+  have hq := hqq f hcur
+  have hnc : ∀ c, ¬ liveIn w.fibers w.ent f c := fun c hh => hq.2.2 ⟨c, hh⟩
+  unfold step at h
+  rw [hcur] at h
+  simp only [] at h
+  have hpw := chanPop_W hg.skips (mode := 0) hm hcur hq.1 hq.2.1 (hnc c) (by decide)
+  cases hp : chanPop cfg w f c 0 with
+  | blocked w1 =>
+    rw [hp] at h
+    simp at h
+    obtain ⟨_, _, h3, _, h5, h6, _⟩ := hpw.2 w1 hp
+    right
+    rw [← h]
+    refine ⟨by rw [(await_view w1 f c).2]; exact h3, ?_⟩
+    intro c'
+    rw [(await_view w1 f c').1]
+    by_cases e : c' = c
+    · subst e; simp [h6]
+    · simp [e]; intro hl; exact hnc c' ((h5 c' e).mp hl)
+  | got w1 r =>
+    rw [hp] at h
+    obtain ⟨h1, _, h3, _, _, h6⟩ := hpw.1 w1 r hp
+    left
+    have hcan1 : (w1.fibers f).canceled = false := by
+      rw [h6]
+      cases hc : (w.fibers f).canceled
+      · rfl
+      · have := hm.e f hc; rw [hq.1] at this; cases this
+    have key : ∀ v, w' = awaitFiber (schedule w1 f v) f →
+        LT w'.fibers w'.runq f = 1 ∧ ∀ c', ¬ liveIn w'.fibers w'.ent f c' := by
+      intro v hw'
+      have hl1 : LT w'.fibers w'.runq f = 1 := by
+        rw [hw', (await_view _ f c).2]; exact LT_schedule_self f v .ok h1 hcan1
+      exact ⟨hl1, fun c' hl => (hW.1.d3 f hl1).2 ⟨c', hl⟩⟩
+    cases r with
+    | none => simp at h; exact key .nil h.symm
+    | some x => simp at h; exact key (.num x) h.symm
+
+/-- `(ev/select ...)` without a repeated channel that suspends: no live task, registered on the channel of every
+    clause and nowhere else -/
+theorem select_suspends_exactly {cfg : Cfg} (hg : CfgGood cfg) {w : World} {f : Nat} {cls : List Clause} (hi : WInv w)
+    (hcur : w.current = some f) (hnd : (cls.map Clause.chan).Nodup) (w' : World)
+    (h : step cfg w (.select cls) = (w', .await)) :
+    LT w'.fibers w'.runq f = 0 ∧ ∀ c', liveIn w'.fibers w'.ent f c' ↔ c' ∈ cls.map Clause.chan := by
+  obtain ⟨hm, hqq⟩ := hi
+  have hq := hqq f hcur
+  have hnc : ∀ c, ¬ liveIn w.fibers w.ent f c := fun c hh => hq.2.2 ⟨c, hh⟩
+  unfold step at h
+  rw [hcur] at h
+  cases cls with
+  | nil => simp at h
+  | cons cl0 cls0 =>
+    simp only [] at h
+    generalize hcls : cl0 :: cls0 = cls at h hnd
+    cases hci : choiceImmediate cfg w f cls with
+    | some r => rw [hci] at h; simp at h
+    | none =>
+      rw [hci] at h
+      simp at h
+      have hcond := choiceImmediate_none hg w f cls hci
+      obtain ⟨_, _, h3, _, h5, _, h7⟩ := choiceRegister_W hg f cls w hm hcur hq.1 hq.2.1
+        (fun cl hcl => ⟨hcond cl hcl, hnc cl.chan⟩) hnd
+      rw [← h]
+      refine ⟨by rw [(await_view _ f 0).2]; exact h3, ?_⟩
+      intro c'
+      rw [(await_view _ f c').1]
+      constructor
+      · intro hl
+        by_cases e : c' ∈ cls.map Clause.chan
+        · exact e
+        · exact absurd (h7 c' e hl) (hnc c')
+      · intro hin
+        obtain ⟨cl, hcl, e⟩ := List.mem_map.mp hin
+        rw [← e]; exact h5 cl hcl
 
 end JanetModel.Ev
